@@ -87,8 +87,14 @@ def gen_k50(rng, n, nconst=3, downward=True, nested=0.2, fresh_only=False):
             for _k in range(rng.choice([1, 2, 4])):
                 c = rng.random()
                 qi = rng.randrange(len(qobjs))
-                if c < 0.35 and downward and qobjs[qi][1] < nb:
+                if c < 0.35 and downward:
                     ops.append([21, qi])
+                    if qobjs[qi][1] >= nb:
+                        # downward through a quantifier: follow the pushed bounds further down (inner downward, body downward)
+                        inner = qobjs[qi][1] - nb
+                        ops.append(rng.choice([[21, inner], [20, inner]]))
+                        if qobjs[inner][1] < nb and kb[qobjs[inner][1]][0] != 0 and rng.random() < 0.5:
+                            ops.append([2, qobjs[inner][1], -1])
                 elif c < 0.6:
                     ops.append([20, qi])
                 elif c < 0.75 and nonleaf:
@@ -102,4 +108,38 @@ def gen_k50(rng, n, nconst=3, downward=True, nested=0.2, fresh_only=False):
                     ops.append([20, qi])
         out.append([50, kb, roots, worlds, data, qobjs, ops])
         meta.append({"nq": len(qobjs), "partial": any(q[2] for q in qobjs), "nested": any(q[1] >= nb for q in qobjs), "full": any(q[3] == 1 for q in qobjs)})
+    return out, meta
+
+
+def gen_k50_interleaved(rng, n):
+    """nested quantifiers whose outer quantifier keeps a free variable and binds a variable that PRECEDES another free variable
+    of the inner one (e.g. Forall(x, Exists(y, f(x, y, z)))): the inner groundings of one outer group are not adjacent"""
+    out, meta = [], []
+    for _ in range(n):
+        kb = [[0, [], [], 3, list(gen_fol.DEFP), []], [1, [0], [[0, 1, 2]], 3, list(gen_fol.DEFP), [[0, 1, 2]]]]
+        body = 1 if rng.random() < 0.7 else 0
+        if body == 0:
+            kb = kb[:1] + [[2, [0, 0], [[0, 1, 2], [0, 1, 2]], 3, [F(1), F(1), [F(1), F(1)], 1], [[0, 1, 2], [0, 1, 2]]]]
+            body = 1
+        k1, k2 = rng.choice([0, 1]), rng.choice([0, 1])
+        inner = [k1, body, [0, 2], rng.choice([0, 0, 2]), OPEN, [0, 1, 2]]                     # binds y, free (x, z)
+        outer = [k2, 2, [1], rng.choice([0, 0, 2]), rng.choice([OPEN, CLOSED, AXIOM]), [0, 2]]   # binds x, free (z)
+        d = {}
+        for x in range(2):
+            for y in range(rng.choice([1, 2])):
+                for z in range(2):
+                    if rng.random() < 0.85:
+                        d[(x, y, z)] = rng.choice([[F(1), F(1)], [F(0), F(0)], [F(0), F(1)], gen_fol.rnd_fact(rng, 0.3)])
+        if not d:
+            d[(0, 0, 0)] = [F(1), F(1)]
+        items = list(d.items())
+        rng.shuffle(items)
+        data = [[0, [[list(g), b] for g, b in items]]]
+        cycle = [[1, 1], [20, 0], [20, 1], [21, 1], [21, 0], [2, 1, -1]]
+        ops = list(cycle)
+        if rng.random() < 0.6:
+            g = [rng.randrange(2), rng.randrange(2), rng.randrange(2)]
+            ops += [[8, 0, [[g, gen_fol.rnd_fact(rng, 0.5)]]]] + cycle
+        out.append([50, kb, [], [OPEN, OPEN], data, [inner, outer], ops])
+        meta.append({"nq": 2, "partial": True, "nested": True, "full": False})
     return out, meta
